@@ -1,6 +1,7 @@
 package main
 
 import (
+	"context"
 	"go/types"
 
 	"golang.org/x/tools/go/ssa"
@@ -82,6 +83,7 @@ type checkOpts struct {
 	repo, prop, tier, out, only, extern string
 	seed                        int
 	keep                        bool
+	stab                        int
 	verbose                     bool
 }
 
@@ -97,6 +99,7 @@ func cmdCheck(args []string) int {
 	fs.IntVar(&o.seed, "seed", 0, "seed")
 	fs.BoolVar(&o.keep, "keep", false, "keep query files")
 	fs.BoolVar(&o.verbose, "v", false, "verbose")
+	fs.IntVar(&o.stab, "stab", 0, "stability test: additionally run every obligation with this many z3 random seeds (report only)")
 	fs.Parse(args)
 	start := time.Now()
 	var extra []string
@@ -132,6 +135,7 @@ type Report struct {
 	Errors     []string
 	Externs    []string
 	Vacuity    []string
+	Unstable   []string
 }
 
 func runProperty(w *World, o *checkOpts) *Report {
@@ -196,6 +200,56 @@ func runProperty(w *World, o *checkOpts) *Report {
 			jobs = append(jobs, job{av, ob})
 		}
 	}
+	// lemmas: each is proved from the axioms and lemmas declared before it
+	for li, ax := range w.cs.Axioms {
+		if !ax.Lemma || (o.prop != "" && !contains(ax.Props, o.prop)) {
+			continue
+		}
+		lv := &FnVC{w: w, fname: "lemma", fc: &FuncContract{Pkg: ax.Pkg, Name: "lemmas", Props: ax.Props}, oblSeen: map[string]int{}}
+		lv.localSorts = map[string]string{}
+		lv.initial = State{}
+		lv.st = State{}
+		env := &Env{v: lv, vars: map[string]Term{}, st: State{}, callee: true, pkg: w.pkgByPath(ax.Pkg)}
+		var pre strings.Builder
+		var goal string
+		err := func() (err error) {
+			defer func() {
+				if r := recover(); r != nil {
+					if se, ok := r.(specError); ok {
+						err = fmt.Errorf("%s", se.msg)
+						return
+					}
+					panic(r)
+				}
+			}()
+			for _, prev := range w.cs.Axioms[:li] {
+				if p := w.pkgByPath(prev.Pkg); p != nil {
+					env.pkg = p
+				}
+				fmt.Fprintf(&pre, "(assert %s) ; %s\n", lv.specBoolE(prev.E, env, &Clause{Text: prev.Text, File: "axiom " + prev.Name}), prev.Name)
+			}
+			env.pkg = w.pkgByPath(ax.Pkg)
+			goal = lv.specBoolE(ax.E, env, &Clause{Text: ax.Text, File: "lemma " + ax.Name})
+			return nil
+		}()
+		if err != nil {
+			rep.Errors = append(rep.Errors, "lemma "+ax.Name+": "+err.Error())
+			continue
+		}
+		q := prelude + w.sorts.decls.String() + w.decls.String() + lv.body.String() + pre.String() + "(assert (not " + goal + "))\n(check-sat)\n"
+		ob := &Obligation{Name: "lemma/" + ax.Name, Kind: "lemma", Props: ax.Props, Func: "lemmas", Claimed: true, Text: ax.Text, RawQuery: q}
+		fname := ax.Pkg + ".lemmas"
+		found := false
+		for _, fr := range rep.Funcs {
+			if fr.Name == fname {
+				found = true
+			}
+		}
+		if !found {
+			rep.Funcs = append(rep.Funcs, &FuncReport{Name: fname})
+		}
+		jobs = append(jobs, job{lv, ob})
+	}
 	qdir := filepath.Join(os.TempDir(), fmt.Sprintf("foxvc-%d", os.Getpid()))
 	os.MkdirAll(qdir, 0o755)
 	if !o.keep {
@@ -240,6 +294,37 @@ func runProperty(w *World, o *checkOpts) *Report {
 		}(j)
 	}
 	wg.Wait()
+	if o.stab > 0 {
+		var mu sync.Mutex
+		var wg2 sync.WaitGroup
+		for _, j := range jobs {
+			if j.o.Cover || j.o.Result.Status != "unsat" {
+				continue
+			}
+			wg2.Add(1)
+			sem <- struct{}{}
+			go func(j job) {
+				defer wg2.Done()
+				defer func() { <-sem }()
+				for s := 1; s <= o.stab; s++ {
+					sp := solverSpec{"z3-new", func(f string, sec int) []string {
+						return []string{"z3-new", fmt.Sprintf("-T:%d", sec), fmt.Sprintf("smt.random_seed=%d", s*7919), fmt.Sprintf("sat.random_seed=%d", s*104729), f}
+					}}
+					st, _, ms := runSolver(context.Background(), sp, j.o.Result.File, 5)
+					if st != "unsat" || ms > 2500 {
+						mu.Lock()
+						rep.Unstable = append(rep.Unstable, fmt.Sprintf("%s seed#%d: %s %dms", j.o.Name, s, st, ms))
+						mu.Unlock()
+					}
+				}
+			}(j)
+		}
+		wg2.Wait()
+		sort.Strings(rep.Unstable)
+		for _, u := range rep.Unstable {
+			fmt.Println("UNSTABLE", u)
+		}
+	}
 	// second chance: obligations that timed out while the machine was loaded are retried alone
 	for _, j := range jobs {
 		ob := j.o
